@@ -29,7 +29,7 @@ NO_CLEAR = {"", "linux", "linux.vmcoreinfo", "file", "file.set", "file.set.0", "
 
 def parse_tree(line):
     """-> list of (path tuple of key strings, type char, nkids)"""
-    toks = line.split()[1:]
+    toks = line.split()[2:]          # "TREE <variant> <node> ..."
     out = []
     pos = [0]
 
@@ -50,8 +50,9 @@ def is_hooked(name):
 
 
 class Gen:
-    def __init__(self, rng, tree, nfiles):
+    def __init__(self, rng, tree, nfiles, variant="P"):
         self.rng = rng
+        self.variant = variant
         self.nodes = [(".".join(p), ty, nk) for p, ty, nk in tree if p]
         self.by_name = {n: (ty, nk) for n, ty, nk in self.nodes}
         self.dirs = [n for n, ty, nk in self.nodes if ty == "d"]
@@ -87,9 +88,23 @@ class Gen:
         slots = {}      # slot -> ctx it was made through
         islots = {}
         focus = r.sample(self.settable, 6) + r.sample(self.dirs, 3) + (r.sample(self.ax, 2) if self.ax else [])
+        if self.variant == "F":
+            # a new context: "addrxlat" has no value although addrxlat.default/.force have one
+            focus = r.sample(self.ax, min(5, len(self.ax))) + ["addrxlat", "addrxlat.force", "addrxlat.default"] + \
+                r.sample(self.settable, 3)
+        was_set = []        # keys given a value in this history
+        opened = False
+        if self.variant == "F" and self.nfiles and r.random() < 0.12:
+            ops.append("O:%d" % r.randrange(self.nfiles))       # an opened context (continues in a child)
+            opened = True
+
+        axdirs = ["addrxlat", "addrxlat.force", "addrxlat.default"]
 
         def key():
             x = r.random()
+            if opened:
+                # the new file created attributes the model does not know: stay below addrxlat
+                return r.choice(self.ax + axdirs) if x < 0.9 else "addrxlat.nosuch"
             if x < 0.55:
                 return r.choice(focus)
             if x < 0.8:
@@ -120,6 +135,28 @@ class Gen:
         while len(ops) < n:
             c = r.choice(live)
             x = r.random()
+            if opened and x >= 0.46 and not (0.56 <= x < 0.86):
+                x = r.random() * 0.46                            # after an open: sets, clears and gets only
+            if was_set and r.random() < 0.10:
+                # clear a directory on the path of a key that has a value, then look at the key every way
+                k = r.choice(was_set)
+                comps = k.split(".")
+                anc = [".".join(comps[:j]) for j in range(1, len(comps))]
+                anc = [a for a in anc if a in self.clearable]
+                if anc:
+                    a = r.choice(anc)
+                    sl = r.randrange(6)
+                    ops.append("R:%d:%d:%s" % (c, sl, hx(k)))
+                    ops.append("S:%d:%s:N:-" % (c, hx(a)))
+                    ops.append("G:%d:%s" % (c, hx(k)))
+                    ops.append("RG:%d:%d" % (c, sl))
+                    ops.append("RI:%d" % sl)
+                    par = ".".join(comps[:-1])
+                    isl = r.randrange(3)
+                    ops.append("I:%d:%d:%s" % (c, isl, hx(par)))
+                    ops += ["IN:%d:%d" % (c, isl)] * (self.by_name[par][1] + 1 if par in self.by_name else 1)
+                    slots[sl] = (c, k)
+                    continue
             if x < 0.28:
                 k = key()
                 nm = k[1:] if k.startswith(".") and len(k) > 1 else k
@@ -127,6 +164,8 @@ class Gen:
                 o = setop(["S", str(c), hx(k)], nt)
                 if o:
                     ops.append(":".join(o))
+                    if nt and o[-2] == nt[1] and o[-2] != "d" and k == nm:
+                        was_set.append(nm)
             elif x < 0.46:
                 ops.append("G:%d:%s" % (c, hx(key())))
             elif x < 0.56:
@@ -173,7 +212,9 @@ class Gen:
                 # a complete listing of a directory
                 isl = r.randrange(3)
                 d = r.choice([k for k in focus if k in self.dirs] + [r.choice(self.dirs)])
-                if r.random() < 0.08:
+                if opened:
+                    d = r.choice(axdirs)
+                elif r.random() < 0.08:
                     d = "@"
                 if r.random() < 0.2 and slots:
                     sl = r.choice(sorted(slots))
@@ -204,14 +245,62 @@ class Gen:
                         slots = {s: a for s, a in slots.items() if a[0] != v}
             else:
                 ops.append("G:%d:%s" % (c, hx(r.choice(focus))))
-        if self.nfiles and r.random() < 0.08:
+        if self.nfiles and not opened and r.random() < 0.08:
             ops.append("O:%d" % r.randrange(self.nfiles))
             if r.random() < 0.6:
                 ops.append("O:%d" % r.randrange(self.nfiles))       # a real re-open
                 if self.hangs < 2:
                     self.hangs += 1
                     ops.append("S:0:%s:n:1" % hx("arch.ptr_size"))  # needs the write lock (hung before fixes/48)
-        return ops
+        return ([self.variant] if self.variant != "P" else []) + ops
+
+
+def big_history(rng, n):
+    """B<n>: n sibling attributes K0..K<n-1> below linux.vmcoreinfo.lines (many keys are proper
+    prefixes of later ones and share the 1024 hash buckets).  Every key is read by path, by
+    sub-reference and through the iterator, set to a new value by alternating entry points, and
+    read again."""
+    lines = "linux.vmcoreinfo.lines"
+    ops = ["R:0:0:%s" % hx(lines)]
+    keys = list(range(n))
+    for i in keys:
+        ops.append("G:0:%s" % hx("%s.K%d" % (lines, i)))
+    for i in rng.sample(keys, min(n, 600)):
+        ops += ["SR:0:1:0:%s" % hx("K%d" % i), "RG:0:1"]
+    ops.append("I:0:0:%s" % hx(lines))
+    ops += ["IN:0:0"] * (n + 1)
+    order = keys[:]
+    rng.shuffle(order)
+    for j, i in enumerate(order):
+        v = hx("w%d" % i)
+        if j % 3 == 0:
+            ops.append("S:0:%s:s:%s" % (hx("%s.K%d" % (lines, i)), v))
+        elif j % 3 == 1:
+            ops += ["SR:0:1:0:%s" % hx("K%d" % i), "RS:0:1:s:%s" % v]
+        else:
+            ops.append("SS:0:0:%s:s:%s" % (hx("K%d" % i), v))
+    for i in keys:
+        ops.append("G:0:%s" % hx("%s.K%d" % (lines, i)))
+    ops.append("IR:0:1:0")
+    ops += ["IN:0:1"] * (n + 1)
+    # clear a third of them through alternating entry points, look again
+    for j, i in enumerate(order[:n // 3]):
+        if j % 2:
+            ops.append("S:0:%s:N:-" % hx("%s.K%d" % (lines, i)))
+        else:
+            ops.append("SS:0:0:%s:N:-" % hx("K%d" % i))
+    for i in rng.sample(keys, min(n, 800)):
+        ops.append("G:0:%s" % hx("%s.K%d" % (lines, i)))
+    ops.append("I:0:2:%s" % hx(lines))
+    ops += ["IN:0:2"] * (n + 1)
+    return ["B%d" % n] + ops
+
+
+def split_case(case):
+    """(variant prefix as a list, operations)"""
+    if case and (case[0] in ("P", "F") or (case[0][:1] == "B" and case[0][1:].isdigit())):
+        return case[:1], case[1:]
+    return [], case
 
 
 def make_elf(path):
@@ -287,13 +376,13 @@ def reopen_equal(mtok, itok, fresh):
 def check(run):
     run.trusted += ["the initial dictionary of every history is read (white-box) from a context prepared by "
                     "harness/attr_drv.c setup(); the model is responsible for every transition after that",
-                    "the attribute hash table is abstracted to path resolution (any hash function)",
+                    "the tree model resolves paths; that the hash table + keycmp do the same for any hash function is C13_lookup_any_hash",
                     "blobs are compared by identity (the driver keeps the objects)"]
     run.assumptions += ["histories only set or clear keys without set/clear hooks (keys with hooks are C14's subject); "
                         "type-mismatching sets target every key",
                         "references and iterators are not used after the KDUMP_CLONE_XLAT clone they were made through is freed",
                         "KDUMP_CLONE_XLAT clones are made of contexts that use the original dictionary",
-                        "developed against /repo with fixes/10,11,14,50..59 applied"]
+                        "the model follows /repo HEAD (all fixes of fixes/ applied)"]
     run.check_coq()
     if not run.need_ml():
         return
@@ -303,13 +392,18 @@ def check(run):
     quick = run.tier == "quick"
     ncases = 2500 if quick else 60000
     maxops = 30 if quick else 45
-    rc, out, err = core.run_impl(exe, ["--tree"], timeout=60)
-    if rc != 0 or not out.startswith("TREE"):
-        run.violation("impl", "the library fails while a context is prepared (exit %s)" % rc,
-                      {"stderr": err[-1500:]}, found_input=True, signature="attr setup " + err[-200:])
-        return
-    tree_line = out.strip()
-    tree = parse_tree(tree_line)
+    nbig = 1200 if quick else 3000
+    variants = ["P", "F", "B%d" % nbig]
+    tree_lines, trees = [], {}
+    for v in variants:
+        rc, out, err = core.run_impl(exe, ["--tree", v], timeout=60)
+        if rc != 0 or not out.startswith("TREE"):
+            run.violation("impl", "the library fails while a context is prepared (variant %s, exit %s)" % (v, rc),
+                          {"stderr": err[-1500:]}, found_input=True, signature="attr setup " + err[-200:])
+            return
+        tree_lines.append(out.strip())
+        trees[v] = parse_tree(out.strip())
+    tree = trees["P"]
     # files for re-open
     files = []
     f0 = core.os.path.join(run.work, "reopen0.elf")
@@ -329,13 +423,13 @@ def check(run):
         _, d = parse_dump("O0{" + out.strip() + "}")
         fresh[i] = d
     usable = sorted(fresh)
-    head = [tree_line] + fresh_lines
+    head = tree_lines + fresh_lines
     ctx = {"exe": exe, "head": head, "files": files, "fresh": fresh}
     hyp = core.run_model("attr", run.casefile("attr-head.txt", head))
-    if not hyp or hyp[0] != "tree":
+    if len(hyp) < len(variants) or any(h != "tree" for h in hyp[:len(variants)]):
         run.violation("tie", "the dictionary of a freshly prepared context does not satisfy the theorems' hypotheses: %s"
-                      % (hyp[0] if hyp else "?"), {"tree": tree_line[:2000]}, found_input=False,
-                      signature="attr hypotheses " + (hyp[0] if hyp else "?"))
+                      % hyp[:len(variants)], {"trees": [t[:500] for t in tree_lines]}, found_input=False,
+                      signature="attr hypotheses %s" % hyp[:len(variants)])
         return
     if run.replay_path:
         rp = core.json.load(open(run.replay_path))
@@ -343,16 +437,24 @@ def check(run):
         compare(run, ctx, [ops])
         return
     gen = Gen(run.rng, tree, len(usable))
+    genf = Gen(run.rng, trees["F"], len(usable), "F")
+    nfresh = ncases // 3
     cases = []
     corpus = core.os.path.join(core.VERIF, "corpus", "attr.txt")
     if core.os.path.exists(corpus):
         cases += [l.split() for l in open(corpus).read().split("\n") if l.strip() and not l.startswith("#")]
     ncorpus = len(cases)
+    # thousands of prefix-related sibling keys first (one long history; three in the thorough tier)
+    for _ in range(1 if quick else 3):
+        cases.append(big_history(run.rng, nbig))
     for _ in range(ncases):
         cases.append(gen.history(maxops))
+    for _ in range(nfresh):
+        cases.append(genf.history(maxops))
     run.cov["rule"] = ("one case = one operation history on a freshly prepared real context (%d keys); distinct = distinct "
                        "histories; non-trivial = contains a clear, a type mismatch, a clone or a re-open" % len(tree))
-    run.cov["engines"]["attr"] = {"corpus_cases": ncorpus, "generated": ncases, "keys": len(tree),
+    run.cov["engines"]["attr"] = {"corpus_cases": ncorpus, "generated": ncases, "fresh_context_histories": nfresh,
+                                  "big_histories": 1 if quick else 3, "big_sibling_keys": nbig, "keys": len(tree),
                                   "reopen_files": [core.os.path.basename(files[i]) for i in usable]}
     shard = 2500
     for s0 in range(0, len(cases), shard):
@@ -375,6 +477,7 @@ def run_both(run, ctx, cases, name="attr-cases.txt"):
 
 
 def same(ctx, ops, mline, iline):
+    ops = split_case(ops)[1]
     mt, it = mline.split(), iline.split()
     if len(mt) != len(it):
         return False
@@ -402,7 +505,7 @@ def compare(run, ctx, cases):
         out = impl[i] if i < len(impl) else ""
         canon = " ".join(ops)
         run.note_case(canon, any(o.startswith(("C:", "O:", "F:")) or ":N:" in o for o in ops))
-        for o, t in zip(ops, out.split()):
+        for o, t in zip(split_case(ops)[1], out.split()):
             tag = o.split(":")[0]
             run.count("op-%s-%s" % (tag, t.split(":")[0].split("{")[0][:3]))
         if i < 2:
@@ -432,18 +535,35 @@ def compare(run, ctx, cases):
             if not same(ctx, cand, m[0], im[0]):
                 return True
             return spec_verdicts(run, ctx, [cand], im)[0] != "ok"
+        pre, body = split_case(ops)
+
+        def fails_body(cand):
+            return fails(pre + cand)
         if "HANG-OR-CRASH" in (impl[i] if i < len(impl) else ""):
             # each attempt costs the watchdog's delay: keep the re-open tail, do not shrink further
-            k = min(j for j, o in enumerate(ops) if o.startswith("O:"))
-            small = ops[k:]
+            k = min(j for j, o in enumerate(body) if o.startswith("O:"))
+            small = pre + body[k:]
+        elif len(body) > 400:
+            # a long history: try the first operation that is answered differently, with the
+            # reference it may use, instead of delta debugging
+            mt = (model[i] if i < len(model) else "").split()
+            it = (impl[i] if i < len(impl) else "").split()
+            j = next((j for j in range(min(len(mt), len(it), len(body))) if mt[j] != it[j]), None)
+            small = ops
+            if j is not None:
+                refs = [o for o in body[:j] if o.startswith(("R:", "SR:"))][-2:]
+                for cand in ([body[j]], body[:1] + [body[j]], body[:1] + refs + [body[j]]):
+                    if fails_body(cand):
+                        small = pre + cand
+                        break
         elif not fails(ops):
             run.count("unreproducible-disagreement")
             continue
         else:
-            small = core.shrink_list(ops, fails)
+            small = pre + core.shrink_list(body, fails_body)
         m, im, cr = run_both(run, ctx, [small], "attr-one.txt")
         sv = spec_verdicts(run, ctx, [small], im)[0] if im else "no output"
-        readable = " ".join(decode_op(o) for o in small)
+        readable = " ".join(decode_op(o) for o in small[:60]) + (" ... (%d operations)" % len(small) if len(small) > 60 else "")
         replay = {"engine": "attr", "case": " ".join(small), "readable": readable, "model": m, "implementation": im,
                   "crash": {k: (v[0], v[1][-1500:]) for k, v in cr.items()}, "spec_verdict": sv,
                   "how": "bin/check C13 --replay <this file> re-runs the history through harness/attr_drv.c"}
